@@ -267,6 +267,21 @@ def showAttrs (a : List (String × AttrVal String)) : String :=
 def splitAt (sep : String) (l : List String) : List String × List String :=
   (l.takeWhile (· != sep), (l.dropWhile (· != sep)).drop 1)
 
+partial def parseFitPars : List String → List (FitPar Float × Float)
+  | "U" :: lo :: hi :: g :: v :: r =>
+      match mkUniform (pExt lo) (pExt hi) (if g == "none" then none else some (pF g)) with
+      | some u => (⟨.uniform u, u.guess, u.scaleFactor, u.lower, u.upper⟩, pF v) :: parseFitPars r
+      | none => parseFitPars r
+  | "G" :: mu :: sd :: v :: r =>
+      match mkGaussian (pF mu) (pF sd) with
+      | some g => (⟨.gauss g, g.mu, g.scaleFactor, .ninf, .pinf⟩, pF v) :: parseFitPars r
+      | none => parseFitPars r
+  | "B" :: mu :: sd :: lo :: hi :: v :: r =>
+      match mkBoundedGaussian (pF mu) (pF sd) (pExt lo) (pExt hi) with
+      | some g => (⟨.gauss g, g.mu, g.scaleFactor, g.lower, g.upper⟩, pF v) :: parseFitPars r
+      | none => parseFitPars r
+  | _ => []
+
 def step (line : String) : String :=
   match (line.trimAscii.toString.splitOn " ").filter (· ≠ "") with
   -- C19 ---------------------------------------------------------------
@@ -513,6 +528,22 @@ def step (line : String) : String :=
   | "updatemeta" :: toks =>
       let (a, b) := splitAt "|" toks
       showAttrs (updatedAttrs (parseAttrs a) (parseAttrs b))
+  -- C13 ---------------------------------------------------------------
+  | "parinfo" :: rest =>
+      let ps := (parseFitPars rest).map (·.1)
+      " ".intercalate (ps.map fun p =>
+        let i := nmpParinfo p
+        sF i.value ++ " " ++ toString i.limitedLo ++ " " ++ toString i.limitedHi ++ " " ++
+          (match i.limitLo with | some v => sF v | none => "nan") ++ " " ++ (match i.limitHi with | some v => sF v | none => "nan"))
+  | "nmpresid" :: sd :: n :: rest =>
+      let k := pN n
+      let xs := (rest.take (2 * k)).map pF
+      let pv := parseFitPars (rest.drop (2 * k))
+      sFs (nmpResiduals (pv.map (·.1)) (pv.map (·.2)) (xs.take k) (xs.drop k) (pF sd))
+  | ["nmpattrs", phase, ever] =>
+      let ph : FitPhase := if phase == "idle" then .idle else if phase == "initialised" then .initialised
+        else if phase == "minimised" then .minimised else if phase == "errors" then .errorsDone else .cleaned
+      ",".intercalate (nmpAttrs ph (ever == "1"))
   | ["genfailures"] => toString (translationFailures ++ projTranslationFailures ++ tablesTranslationFailures)
   | _ => "bad-op"
 
